@@ -1,7 +1,7 @@
 (* C02 — every selected line is delivered before the session closes, at any pace.
    Statements only.  Schedules are event lists over the LTS of Model/C02_Session.v; the consumer's
    pace is the environment's freedom to delay ReadLine / ReadMsg events arbitrarily. *)
-From DT Require Import Lib.Bytes Gen.Consts Model.C02_Session Proofs.C02_Session.
+From DT Require Import Lib.Bytes Gen.Consts Model.C02_Session Proofs.C02_Session Proofs.C02_Live.
 
 (* Full statement for a configuration: on every schedule, once the .syn has reached the
    client and all requested commands were received, every line of every file was delivered
@@ -38,6 +38,30 @@ Theorem C02_partial : forall (c : cfg),
   bounded_flush c = false -> late_commands c = false -> C02_full c.
 Proof. exact (fun c Hf Hl es s => delivered c Hf Hl es s). Qed.
 Print Assumptions C02_partial.
+
+(* Liveness of the session model.  (1) No schedule of ANY configuration is infinite: every event
+   strictly decreases a measure, so a schedule has at most 4*files + 2*lines events.  (2) With the
+   repaired flush, a lines channel of capacity >= 1 and at least one requested command: a schedule
+   that cannot be extended has handed the .syn to the transport (no deadlock before it) - so under
+   any scheduler that keeps taking some enabled event, at whatever pace the consumer reads, the
+   session ends with the .syn delivered; (3) and every schedule can be completed within the bound.
+   What the model cannot exhibit: wall-clock time-outs of the real transport, observed by the
+   paced sessions of the correspondence check only. *)
+Theorem C02_no_infinite_schedule : forall c es s, run c init es = Some s ->
+  length es <= 4 * length (sizes c) + 2 * fold_right plus 0 (sizes c).
+Proof. exact schedule_bound. Qed.
+Print Assumptions C02_no_infinite_schedule.
+
+Theorem C02_no_deadlock : forall c, bounded_flush c = false -> late_commands c = false -> 0 < qcap c -> 0 < length (sizes c) ->
+  forall es s, run c init es = Some s -> (forall e, step c s e = None) -> has_syn (stream s) = true.
+Proof. exact stuck_is_done. Qed.
+Print Assumptions C02_no_deadlock.
+
+Theorem C02_completes : forall c, bounded_flush c = false -> late_commands c = false -> 0 < qcap c -> 0 < length (sizes c) ->
+  forall es s, run c init es = Some s ->
+  exists es' s', run c s es' = Some s' /\ has_syn (stream s') = true /\ length es + length es' <= mu c init.
+Proof. exact completes. Qed.
+Print Assumptions C02_completes.
 
 (* non-vacuity: two files behind a queue of capacity 1, interleaved pushes, stalled consumer *)
 Example C02_example :
